@@ -11,6 +11,10 @@ CLAIMED = {
    text="Deductive: the position arithmetic of the regular-drive branches of recovery.Index and recovery.Query is proved for every record size >= 1 and every byte offset by a loop invariant over a ghost model of the drive offset and of archive/tar's reader (next header = drive offset + unread payload + padding): the (record, block) handed to the indexer/callback with each header is that header's start, 0 <= block < record size; Fetch seeks to exactly 512*(recordSize*record+block); Restore passes the row's own position. Non-linear integer arithmetic with a real-valued ceiling, unbounded.",
    note="Assumed: tar reader/Seek/io.Copy ghost specs written from reading archive/tar (specs/30_tar_positions.spec); float64 ceiling exact below 2^53; machine integers mathematical. Not decided here: tape-drive (mt ioctl) branches; the row-position rules of indexHeader and the last-indexed invariant (index-view obligations, not built yet); 'fetching returns current content' rests on C03/C05.",
    design="4.4"),
+ "C05": dict(
+   text="Deductive, for every input and every callee outcome: OpenTapeWriteOnly truncates / rewinds / probe-opens only under an explicit overwrite request and the handle it returns is opened O_APPEND without O_TRUNC for every flag word; a TapeManager honours its overwrite flag for its first writer only; the cleanup closure writes the trailer only if something was written and every successful operation that handed a header to the tar writer went through cleanup; a member whose size field was computed from its content always has that content written (the skip branch is proved unreachable for sized members).",
+   note="Assumed: os.OpenFile flag semantics, archive/tar writer behaviour (well-formedness of what it emits), fs.FileInfo getters are functions of the receiver. Not decided / known gaps: tape-record padding for archives longer than one record (tape drives only), torn records after mid-payload errors (append-only media cannot roll back; design-level), byte-level 'previous content is a prefix' (follows from O_APPEND + truncate-only-on-overwrite under the OS semantics assumed).",
+   design="4.5"),
  "C08": dict(
    text="Deductive: VerifyString accepts only if the library check succeeded on exactly (recipient, src) (minisign) resp. a PGP signature check succeeded on a hash that absorbed exactly src; VerifyHeader requires both records, verifies the embedded header, replaces every field of the outer header by the decoded embedded one and leaves no PAX record that is not in the signed header (encoding/json's merge-into-existing-map semantics is modelled); every header that reaches indexHeader / the Query result / Fetch's destination passed the verifier callback with no store in between; closures passed as verifier/decryptor are checked to conform to named specs, and Index requires a real verifier, or the substitution callback together with the no-op verifier (write paths).",
    note="Assumed: minisign.Verify / PublicKey.VerifySignature establish the uninterpreted predicates signedBy / pgpSigOK exactly when they report success; base64/json decode are functions of their input; a tar.Header is written by a callee without precise frame only if handed to it directly. Content verification (signature.Verify closure, Fetch content gate) and key identity for PGP are not yet under contract.",
@@ -28,7 +32,7 @@ CLAIMED = {
 NOT_YET = {
  "C01": "not yet built (planned, DESIGN 4.1)", "C02": "not yet built (planned, DESIGN 4.2)",
  "C03": "not yet built (planned, DESIGN 4.3)",
- "C05": "not yet built (planned, DESIGN 4.5)", "C06": "not yet built (planned, DESIGN 4.6)",
+ "C06": "not yet built (planned, DESIGN 4.6)",
  "C07": "not yet built (planned, DESIGN 4.7)", 
  "C11": "not yet built (planned, DESIGN 4.11)",
  "C12": "not yet built (planned, DESIGN 4.12)", "C13": "not yet built (planned, DESIGN 4.13)",
